@@ -51,7 +51,11 @@ def run(ctx):
     comp = None
     acc_form = None
     with ctx.obligation("C18.5", "exactly the drawn set is removed, from the copy") as o:
-        if len(removes) != 1:
+        wrong = [n for n in astx.walk_fn(fn.node) if isinstance(n, ast.Call) and isinstance(n.func, ast.Attribute) and n.func.attr in ("remove_nodes_from", "remove_node")]
+        if not removes and wrong:
+            o.violated(fn, wrong[0], f"`{txt(wrong[0])[:60]}` removes NODES: handed the drawn edges (2-tuples) it finds no node with such a label and silently removes nothing - every "
+                                     "bond stays (or, if a tuple happens to be a vertex, a vertex disappears)", shape_free=True)
+        elif len(removes) != 1:
             o.undecided(f"expected one remove_edges_from call, found {len(removes)}", fn)
         else:
             n, b = removes[0]
@@ -226,8 +230,11 @@ def _largest_component(num, G):
             and len(x.value.args) == 1 and _is_components(x.value.args[0], G):
         kws = {k.arg: txt(k.value) for k in x.value.keywords}
         idx = astx.const_value(x.slice)
+        if kws.get("key", "").replace(" ", "") in ("lambdac:-len(c)", "lambdax:-len(x)", "lambdacomp:-len(comp)", "lambdas:-len(s)") and set(kws) == {"key"}:
+            # ascending by -len = descending by size (stable either way)
+            return True if idx == 0 else ("the SMALLEST component is selected" if idx == -1 else None)
         if kws.get("key") != "len":
-            return "components are not sorted by size (key=len missing)"
+            return "components are not sorted by size (key=len missing)" if "key" not in kws else None
         rev = kws.get("reverse", "False")
         if set(kws) - {"key", "reverse"}:
             return None
